@@ -104,7 +104,7 @@ Proof. vm_compute. repeat split; reflexivity. Qed.
 Definition exA : list Z := [96;1;95;85; 95;95;95;95;95;96;11;90;241; 254].
 Definition exA_ok : list Z := [96;1;95;85; 95;95;95;95;95;96;11;90;241; 0].
 Definition exB : list Z := [96;7;96;1;85;0].
-Definition exE : env := mkEnv 99 1 0 0 1 0 1000000 0 0 [500; 501] [([], 77)] 42.
+Definition exE : env := mkEnv 99 1 0 0 1 0 1000000 0 0 [500; 501] [([], 77)] 42 3.
 Definition exW (a : list Z) : world :=
   mkWorld [(10, mkAcc 5 a false); (11, mkAcc 0 exB false); (99, mkAcc 1000 [] false)] [(10, 5, 3)] [] 0 [] [].
 
@@ -139,6 +139,17 @@ Example failed_creation_nonvacuous :
   let init := [96;1;95;85;254] in
   let r := do_create (run 100 exE) exE 10 false 1 500 init 0 60000 (exW exA) 0 in
   r_out r = O_err E_invalid /\ r_world r = exW exA /\ r_cc r = 1.
+Proof. vm_compute. repeat split; reflexivity. Qed.
+
+(* the jump table depends on the fork: PUSH0 and SHL are invalid opcodes before GALACTICA / ETH_CONST *)
+Example fork_tables_nonvacuous :
+  let E2 := mkEnv 99 1 0 0 1 0 1000000 0 0 [] [] 42 2 in
+  let E0 := mkEnv 99 1 0 0 1 0 1000000 0 0 [] [] 42 0 in
+  let w c := mkWorld [(10, mkAcc 0 c false)] [] [] 0 [] [] in
+  r_out (call_top 50 E2 false 10 0 [] 1000 (w [95; 0])) = O_err E_invalid /\
+  r_out (call_top 50 exE false 10 0 [] 1000 (w [95; 0])) = O_ok /\
+  r_out (call_top 50 E0 false 10 0 [] 1000 (w [96; 1; 96; 1; 27; 0])) = O_err E_invalid /\
+  r_out (call_top 50 E2 false 10 0 [] 1000 (w [96; 1; 96; 1; 27; 0])) = O_ok.
 Proof. vm_compute. repeat split; reflexivity. Qed.
 
 (* under static the same program stops at its first SSTORE with the write-protection error *)
